@@ -496,7 +496,7 @@ def ob_overlaps(ctx, res):
             return
     res.ok(no, "both call sites pass (query, child span) positionally and push the child iff overlaps")
     rows = 0
-    miss = extra = None
+    miss = extra = miss_empty = None
     try:
         for cr in weak_orders(3):  # q, c1, c2
             q, c1, c2 = cr
@@ -523,6 +523,8 @@ def ob_overlaps(ctx, res):
                 touch = (q, qs) <= (c2, b2e) and (q, qe) >= (c1, b1s)
                 if share and not got and miss is None:
                     miss = "chroms q,c1,c2 ranks %s; bases qs,qe,b1s,b2e ranks %s" % (cr, br)
+                if q == c1 == c2 and b1s == b2e and qs < qe and qs <= b1s <= qe and not got and miss_empty is None:
+                    miss_empty = "bases qs,qe,p ranks %s" % ((qs, qe, b1s),)
                 if got and not touch and extra is None:
                     extra = "chroms q,c1,c2 ranks %s; bases qs,qe,b1s,b2e ranks %s" % (cr, br)
     except NotPure as e:
@@ -532,8 +534,12 @@ def ob_overlaps(ctx, res):
         res.fail("overlaps/prunes", fn, "overlaps() is false although the child span and the query share a base (%s): an intersecting block would be pruned" % miss)
     if extra:
         res.fail("overlaps/overincludes", fn, "overlaps() is true although the child span does not even touch the query (%s): the search no longer finds exactly the intersecting blocks" % extra)
-    if not miss and not extra:
-        res.ok(fn, "overlaps is implied by `span and query share a base` and implies `span touches the query` on all %d order types (chromosome x base)" % rows)
+    if miss_empty and not miss:
+        res.fail("overlaps/prunes-empty", fn, "overlaps() is false for a block whose span is the single position p with query start <= p <= query end (%s): a section holding only "
+                                              "values without bases (start == end, e.g. at position 0 or at the chromosome end) is kept by the value filters for that query but "
+                                              "would never be visited" % miss_empty)
+    if not miss and not extra and not miss_empty:
+        res.ok(fn, "overlaps is implied by `span and query share a base` and implies `span touches the query` on all %d order types (chromosome x base); a single-position span within the closed query range is visited" % rows)
         ctx.extra_coverage["truth_table_rows"] = ctx.extra_coverage.get("truth_table_rows", 0) + rows
 
 
